@@ -103,8 +103,12 @@ def run(ctx):
     for k, s in enumerate(chosen):
         steps = [{"c": x["c"], "o": options_for(x["c"], x["o"], texts), "via": x["via"],
                   "mode": rng.choice(["path", "stream"])} for x in s]
-        jobs.append(("hist", {"inputs": texts, "files": files, "steps": steps, "hashperm": rng.choice([None, rng.randrange(10 ** 6)]),
-                              "alloc": rng.randrange(0, 10 ** 6), "cwdname": rng.choice(["A", "B/sub"])},
+        cwdname = rng.choice(["A", "B/sub", "D"])
+        hfiles = dict(files)
+        if cwdname == "D":
+            hfiles["propka.cfg"] = custom_cfg()      # a parameter file of the same name as the shipped one in the cwd
+        jobs.append(("hist", {"inputs": texts, "files": hfiles, "steps": steps, "cwdname": cwdname, "hashperm": rng.choice([None, rng.randrange(10 ** 6)]),
+                              "alloc": rng.randrange(0, 10 ** 6)},
                      rng.choice([0, 1, 12345, rng.randrange(10 ** 6)])))
     with ThreadPoolExecutor(max_workers=14) as ex:
         results = list(ex.map(lambda j: execute(j[1], j[2]), jobs))
